@@ -289,6 +289,63 @@ theorem map_sum_eq_dotBlocks (f g : Sched K m nv → Vec K m) (ss : List (Sched 
 end noweights
 end QM.C12
 
+namespace QM.C12
+open QM
+section wreHelpers
+variable {K : Type} [Field K]
+
+/-- `_calc_extend_weights`: every weight repeated once per outcome of its schedule -/
+def extendW (w : List K) (lens : List Nat) : List K := (w.zip lens).flatMap fun (a, n) => List.replicate n a
+
+theorem lsum_append (a b : List K) : lsum (a ++ b) = lsum a + lsum b := by
+  rw [lsum_eq_sum, lsum_eq_sum, lsum_eq_sum, List.sum_append]
+
+theorem lsum_flatten (ts : List (List K)) : lsum ts.flatten = lsum (ts.map lsum) := by
+  induction ts with
+  | nil => rfl
+  | cons t r ih => rw [List.flatten_cons, lsum_append, ih]; simp [lsum]
+
+theorem lsum_replicate_zip (a : K) (t : List K) :
+    lsum (((List.replicate t.length a).zip t).map fun (x, y) => x * y) = a * lsum t := by
+  induction t with
+  | nil => simp [lsum]
+  | cons y t ih =>
+    simp only [List.length_cons, List.replicate_succ, List.zip_cons_cons, List.map_cons]
+    simp only [lsum, List.foldr_cons] at ih ⊢
+    rw [ih]; ring
+
+theorem extendW_length (w : List K) (ts : List (List K)) (h : w.length = ts.length) :
+    (extendW w (ts.map List.length)).length = ts.flatten.length := by
+  induction w generalizing ts with
+  | nil => cases ts <;> simp_all [extendW]
+  | cons a w ih =>
+    cases ts with
+    | nil => simp at h
+    | cons t r =>
+      simp only [List.length_cons, Nat.add_right_cancel_iff] at h
+      have := ih r h
+      simp only [extendW, List.map_cons, List.zip_cons_cons, List.flatMap_cons, List.length_append,
+        List.length_replicate, List.flatten_cons] at this ⊢
+      omega
+
+theorem extend_dot (w : List K) (ts : List (List K)) (h : w.length = ts.length) :
+    lsum (((extendW w (ts.map List.length)).zip ts.flatten).map fun (x, y) => x * y)
+      = lsum ((w.zip (ts.map lsum)).map fun (x, y) => x * y) := by
+  induction w generalizing ts with
+  | nil => cases ts <;> simp_all [extendW, lsum]
+  | cons a w ih =>
+    cases ts with
+    | nil => simp at h
+    | cons t r =>
+      simp only [List.length_cons, Nat.add_right_cancel_iff] at h
+      have ih' := ih r h
+      simp only [extendW, List.map_cons, List.zip_cons_cons, List.flatMap_cons, List.flatten_cons] at ih' ⊢
+      rw [List.zip_append (by simp), List.map_append, lsum_append, lsum_replicate_zip, ih']
+      simp [lsum]
+
+end wreHelpers
+end QM.C12
+
 /-! ## interpretation of the GENERATED mode table / call order (QGen.C12) over the state records -/
 namespace QM.C12
 open QM
@@ -308,7 +365,7 @@ def stepFast (atol : K) (opt : Opt K m) (grad : Bool) (G : List (Mat K (m - 1) (
     (call : String × String) (st : FastWse K m) : Except Err (FastWse K m) :=
   let active := call.2 = "always" || (call.2 = "grad" && grad)
   if call.1 = "set_func_prob_dists_from_standard_qt" || call.1 = "set_func_gradient_prob_dists_from_standard_qt" then
-    .ok (if active then calcExt st else st)
+    (if active then calcExt st else .ok st)
   else if call.1 = "set_from_option" || call.1 = "set_prob_dists_q"
       || call.1 = "set_func_hessian_prob_dists_from_standard_qt" then .ok st
   else if call.1 = "_set_weights_by_mode" then
@@ -316,7 +373,7 @@ def stepFast (atol : K) (opt : Opt K m) (grad : Bool) (G : List (Mat K (m - 1) (
     | none => .ok st
     | some b =>
       let w := interpBranch opt G b
-      if validWs atol w then .ok (setWeightsFast st w) else .error .notSymmetric
+      if validWs atol w then setWeightsFast st w else .error .notSymmetric
   else .error .shape
 
 def interpFast (atol : K) (opt : Opt K m) (grad : Bool) (G : List (Mat K (m - 1) (m - 1))) :
